@@ -626,6 +626,19 @@ func (c *checkCtx) plan() bool {
 	// tables and their look-up functions (which the message layer uses through a summary), the exact shape of the
 	// registration functions, empty tables before init, and purity of everything that has neither a contract nor
 	// a verified caller (constructors, String(), methods of new types).
+	own := map[*Obligation]bool{}
+	for _, o := range c.obs {
+		own[o] = true
+	}
+	defer func() {
+		// obligations of the closure (not of the property's own plan) may reuse cached answers; the plan's own are
+		// always put to the solvers
+		for _, o := range c.obs {
+			if !own[o] {
+				o.Closure = true
+			}
+		}
+	}()
 	switch c.prop {
 	case "C14", "C19":
 	default:
@@ -1018,7 +1031,25 @@ func (c *checkCtx) writeEvidence(total, ok, trivial int, by map[string]int, solv
 		"seed":        c.seed,
 		"level":       "proof",
 		"coverage": map[string]interface{}{
-			"obligations":              total,
+			"obligations": total,
+			"obligations_of_the_property_plan": func() int {
+				n := 0
+				for _, o := range c.obs {
+					if !o.Closure {
+						n++
+					}
+				}
+				return n
+			}(),
+			"obligations_of_the_contract_closure": func() int {
+				n := 0
+				for _, o := range c.obs {
+					if o.Closure {
+						n++
+					}
+				}
+				return n
+			}(),
 			"discharged":               ok,
 			"discharged_by_normaliser": trivial,
 			"checker_cmd":              "gocv (weakest-precondition style VC generation over go/ssa of /repo's working tree) -> z3 4.8.12 | z3 5.1.0 | cvc5 1.0, first unsat",
